@@ -63,16 +63,25 @@ Definition bitop (op : Z) (a b : val) : val :=
   | _, _, _, _ => VDyn
   end.
 
-(* x ** y as computed by Go's math.Pow (special cases first, as in the Go
-   documentation: Pow(x, +-0) = 1 for any x, Pow(1, y) = 1 for any y,
-   Pow(-1, +-Inf) = 1, NaN otherwise when an operand is NaN) *)
+(* integer powers inside the modelled domain: |x| > 1 and y >= 64 is beyond 2^53 *)
+Definition pow_int (x y : Z) : val :=
+  if y <? 0 then VOut
+  else if x =? 0 then VNum 0                      (* y = 0 is handled before *)
+  else if 1 <? Z.abs x then (if 64 <=? y then VOut else num (x ^ y))
+  else num (x ^ (y mod 2)).                       (* x = 1 or -1 *)
+
+(* x ** y as computed by FoldBinaryOperator after /repo 9e1822e: NaN when the
+   exponent is NaN or when |base| = 1 and the exponent is infinite (the cases in
+   which Go's math.Pow returns 1), math.Pow otherwise (Pow(x, +-0) = 1 for any x,
+   Pow(1, y) = 1, NaN when the base is NaN) *)
 Definition go_pow (a b : val) : val :=
   match a, b with
+  | _, VNaN => VNaN
+  | VNum 1, VInf _ | VNum (-1), VInf _ => VNaN
   | _, VNum 0 => VNum 1
   | VNum 1, _ => VNum 1
-  | VNum (-1), VInf _ => VNum 1
-  | VNaN, _ | _, VNaN => VNaN
-  | VNum x, VNum y => if 0 <=? y then (if (x =? 0) || (1 <? Z.abs x) || (y <? 64) then num (x ^ y) else num (x ^ (y mod 2))) else VOut
+  | VNaN, _ => VNaN
+  | VNum x, VNum y => pow_int x y
   | _, _ => VOut
   end.
 
@@ -85,14 +94,8 @@ Definition js_pow (a b : val) : val :=
   | VNaN, _ => VNaN
   | VNum 1, VInf _ | VNum (-1), VInf _ => VNaN
   | VNum 1, _ => VNum 1
-  | VNum x, VNum y => if 0 <=? y then (if (x =? 0) || (1 <? Z.abs x) || (y <? 64) then num (x ^ y) else num (x ^ (y mod 2))) else VOut
+  | VNum x, VNum y => pow_int x y
   | _, _ => VOut
-  end.
-
-Definition pow_special (a b : val) : bool :=
-  match a, b with
-  | VNum 1, VNaN | VNum 1, VInf _ | VNum (-1), VInf _ => true
-  | _, _ => false
   end.
 
 Definition env := list (Z * val).
@@ -186,47 +189,25 @@ Inductive SpecEnum : env -> option val -> list member -> list val -> Prop :=
     SpecEnum en (Some p) r vs ->
     SpecEnum en (Some p) ((name, None) :: r) (VUndef :: vs).
 
-(* no "**" with the operand pairs on which math.Pow and ECMA-262 differ *)
-Fixpoint pow_ok (known : env) (e : ex) : bool :=
-  match e with
-  | XNeg a | XPos a | XNot a => pow_ok known a
-  | XBin op a b =>
-      pow_ok known a && pow_ok known b &&
-      negb ((op =? 5) && pow_special (eval go_pow known a) (eval go_pow known b))
-  | _ => true
-  end.
-
-Lemma pow_agree a b : pow_special a b = false -> go_pow a b = js_pow a b.
+Lemma pow_agree a b : go_pow a b = js_pow a b.
 Proof.
-  destruct a as [x| | | | | |], b as [y| | | | | |]; cbn; intros H; try reflexivity; try discriminate;
+  destruct a as [x| | | | | |], b as [y| | | | | |]; cbn; try reflexivity;
     repeat match goal with
     | |- context [match ?z with 0 => _ | Z.pos _ => _ | Z.neg _ => _ end] => destruct z
     | |- context [match ?p with xH => _ | xO _ => _ | xI _ => _ end] => destruct p
-    end; cbn in *; try reflexivity; try discriminate.
+    end; cbn in *; try reflexivity.
 Qed.
 
-Lemma eval_agree known e : pow_ok known e = true -> eval go_pow known e = eval js_pow known e.
+(* constant folding of initialisers agrees with ECMAScript evaluation, "**" included *)
+Lemma eval_agree known e : eval go_pow known e = eval js_pow known e.
 Proof.
-  induction e; cbn [pow_ok eval]; intros H; try reflexivity.
-  - rewrite IHe by exact H. reflexivity.
-  - rewrite IHe by exact H. reflexivity.
-  - rewrite IHe by exact H. reflexivity.
-  - apply andb_true_iff in H as [H H3]. apply andb_true_iff in H as [H1 H2].
-    rewrite <- IHe1 by exact H1. rewrite <- IHe2 by exact H2.
-    unfold binop. destruct (op =? 5) eqn:E.
-    + cbn in H3. apply negb_true_iff in H3. rewrite (pow_agree _ _ H3). reflexivity.
-    + destruct (eval go_pow known e1), (eval go_pow known e2); try reflexivity;
-        cbn [is_numeric andb]; destruct (op <=? 4); reflexivity.
+  induction e; cbn [eval]; try reflexivity.
+  all: try (rewrite IHe; reflexivity).
+  all: try (rewrite IHe1, IHe2; unfold binop; destruct (op =? 5);
+            [rewrite pow_agree; reflexivity|];
+            destruct (eval js_pow known e1), (eval js_pow known e2); try reflexivity;
+            cbn [is_numeric andb]; destruct (op <=? 4); reflexivity).
 Qed.
-
-(* every initialiser of the enum avoids the special operand pairs *)
-Fixpoint pow_ok_members (s : st) (ms : list member) : bool :=
-  match ms with
-  | [] => true
-  | (name, init) :: r =>
-      match init with Some e => pow_ok (known s) e | None => true end &&
-      pow_ok_members (fst (step s (name, init))) r
-  end.
 
 (* loop invariant linking the visitor state to the specification's context *)
 Definition inv (s : st) (prev : option val) : Prop :=
@@ -242,47 +223,45 @@ Proof. destruct p; cbn; try discriminate; auto. unfold num. destruct (Z.abs (z +
    leaves the modelled domain (VOut) *)
 Lemma enum_loop_spec : forall ms s prev en,
   en = known s ->
-  inv s prev -> pow_ok_members s ms = true ->
+  inv s prev ->
   forallb (fun v => match v with VOut => false | _ => true end) (enum_loop s ms) = true ->
   SpecEnum en prev ms (enum_loop s ms).
 Proof.
-  induction ms as [|[name init] r IH]; intros s prev en Hen Hi Hp Ho; [constructor|]. subst en.
-  cbn [enum_loop pow_ok_members] in *. apply andb_true_iff in Hp as [Hp1 Hp2].
+  induction ms as [|[name init] r IH]; intros s prev en Hen Hi Ho; [constructor|]. subst en.
+  cbn [enum_loop] in *.
   destruct init as [e|].
-  - cbn [step] in *. pose proof (eval_agree (known s) e Hp1) as Ea.
+  - cbn [step] in *. pose proof (eval_agree (known s) e) as Ea.
     destruct (eval go_pow (known s) e) eqn:Ev; cbn [fst enum_loop] in *; cbn [forallb] in Ho;
       try discriminate; apply andb_true_iff in Ho as [_ Ho];
       (eapply SE_init; [exact Ea|]); cbn [constant];
-      (eapply IH; [reflexivity| |exact Hp2|exact Ho]); cbn; auto.
+      (eapply IH; [reflexivity| |exact Ho]); cbn; auto.
     all: try (destruct prev as [p|]; cbn in Hi; [destruct (is_numeric p); intuition|subst; reflexivity]).
   - cbn [step] in *. destruct prev as [p|]; cbn [inv] in Hi.
     + destruct (is_numeric p) eqn:Enp.
       * destruct Hi as [Hh Hn]. rewrite Hh in *. cbn [fst enum_loop forallb] in *. rewrite Hn in *.
         apply andb_true_iff in Ho as [Ho1 Ho].
-        apply SE_next; [exact Enp|]. eapply IH; [reflexivity| |exact Hp2|exact Ho]. cbn.
+        apply SE_next; [exact Enp|]. eapply IH; [reflexivity| |exact Ho]. cbn.
         destruct (is_numeric_succ p Enp) as [E|E]; [rewrite E; cbn; auto|rewrite E in Ho1; discriminate].
       * rewrite Hi in *. cbn [fst enum_loop forallb] in *. apply SE_error; [exact Enp|].
-        eapply IH; [reflexivity| |exact Hp2|exact Ho]. cbn. rewrite Enp. reflexivity.
+        eapply IH; [reflexivity| |exact Ho]. cbn. rewrite Enp. reflexivity.
     + subst s. cbn [hasNum st0 next fst enum_loop forallb succ known] in *.
-      apply SE_first. eapply IH; [reflexivity| |exact Hp2|exact Ho]. cbn. auto.
+      apply SE_first. eapply IH; [reflexivity| |exact Ho]. cbn. auto.
 Qed.
 
 Lemma enum_values_spec_all ms :
-  pow_ok_members st0 ms = true ->
   forallb (fun v => match v with VOut => false | _ => true end) (enum_values ms) = true ->
   SpecEnum [] None ms (enum_values ms).
 Proof. intros. apply (enum_loop_spec ms st0 None []); auto; reflexivity. Qed.
 
-(* DESIGN section 7-B: enum E { A = 1 ** (0/0) } : the model (math.Pow) gives 1,
-   the specification (ECMA-262) gives NaN *)
+(* DESIGN section 7-B, fixed in /repo by 9e1822e: enum E { A = 1 ** (0/0) } is NaN in
+   the model as in the specification (before the fix the model gave 1) *)
 Definition pow_witness : list member := [(100, Some (XBin 5 (XNum 1) (XBin 3 (XNum 0) (XNum 0))))].
 Lemma enum_pow_witness :
-  enum_values pow_witness = [VNum 1] /\ ~ SpecEnum [] None pow_witness [VNum 1] /\
-  SpecEnum [] None pow_witness [VNaN].
+  enum_values pow_witness = [VNaN] /\ SpecEnum [] None pow_witness [VNaN] /\ ~ SpecEnum [] None pow_witness [VNum 1].
 Proof.
   split; [reflexivity|]. split.
-  - intros H. inversion H; subst. match goal with E : VNum 1 = eval js_pow _ _ |- _ => cbn in E; discriminate end.
   - eapply SE_init; [reflexivity|]. constructor.
+  - intros H. inversion H; subst. match goal with E : VNum 1 = eval js_pow _ _ |- _ => cbn in E; discriminate end.
 Qed.
 
 (* ---- correspondence cases ---- *)
